@@ -1,7 +1,7 @@
 """Error fate: what happens to the Result of a call whose error type is a storage error."""
 from collections import defaultdict
 
-from .model import (flows_to, op_local, op_place, place_local, is_bare, moves_from)
+from .model import (flows_to, op_local, op_place, place_local, is_bare, moves_from, Ev)
 
 STORAGE_ERRS = (
     "std::io::error::Error", "tantivy::error::TantivyError", "tantivy::directory::error::OpenReadError",
@@ -139,3 +139,102 @@ def scan(prog, scope_ids):
                 continue
             out.append((body, b, t, et["s"], fate_of_call(body, b, t)))
     return out
+
+
+def overwritten_results(prog, scope_ids):
+    """Flow-sensitive companion of the fate scan: a local of storage-Result type that is assigned
+    again (or assigned in a loop) on a path where its previous value was never read.  Returns
+    (body, def_block, local) triples."""
+    from .model import Ev, reach_positions
+    out = []
+    for fid in sorted(scope_ids):
+        body = prog.body(fid)
+        if body is None or body.kind in ("const", "static", "promoted"):
+            continue
+        cands = []
+        for l, tid in enumerate(body.locals):
+            if l == 0 or l <= body.argc:
+                continue
+            if is_storage_err(result_err_type(body, tid)):
+                cands.append(l)
+        if not cands:
+            continue
+        defs = body.defs()
+        for l in cands:
+            ds = [d for d in defs.get(l, []) if not body.is_cleanup(d[1])]
+            if not ds:
+                continue
+            # only values that come (directly or by move) from a fallible call matter: a constant Ok(()) initialiser is not an error source
+            def is_source(d):
+                if d[0] == "call":
+                    f = d[2].get("f", "") or ""
+                    return not (f.endswith("Try::branch") or f.endswith("from_residual"))
+                st = d[3]
+                if st.get("r") == "use" and st.get("o") and op_place(st["o"][0]) is not None:
+                    return True      # moved from another Result local
+                return False         # aggregate Ok(..)/Err(..) literal
+            src_defs = [d for d in ds if is_source(d)]
+            if not src_defs:
+                continue
+            # use events: any read of l other than a Drop
+            uses = []
+            for b in body.normal_blocks():
+                for i, st in enumerate(body.stmts(b)):
+                    rd = False
+                    for o in st.get("o", []):
+                        if op_local(o) == l:
+                            rd = True
+                    if "p" in st and place_local(st["p"]) == l:
+                        rd = True
+                    if rd:
+                        uses.append(Ev(b, "stmt", i))
+                t = body.term(b)
+                if t["k"] in ("call", "tailcall"):
+                    if any(op_local(o) == l for o in t["args"]):
+                        uses.append(Ev(b, "term"))
+                elif t["k"] == "switch" and op_local(t["on"]) == l:
+                    uses.append(Ev(b, "term"))
+            def_blocks = {}
+            for d in ds:
+                def_blocks.setdefault(d[1], []).append(d)
+            for d in src_defs:
+                b0 = d[1]
+                if d[0] == "call":
+                    starts = tuple(body.succ(b0))
+                    reached = reach_positions(body, uses, starts=starts)
+                    hit = None
+                    for b2, dl in def_blocks.items():
+                        if b2 in reached:
+                            for d2 in dl:
+                                pos2 = len(body.stmts(b2)) if d2[0] == "call" else d2[2]
+                                if reached[b2] >= pos2:
+                                    hit = b2
+                    if hit is not None:
+                        out.append((body, b0, l))
+                else:
+                    # statement definition: continue in the same block after the statement
+                    i0 = d[2]
+                    later_use = any(u.b == b0 and u.kind == "stmt" and u.i > i0 for u in uses) or any(u.b == b0 and u.kind == "term" for u in uses)
+                    if later_use:
+                        continue
+                    later_def = any(d2[0] == "stmt" and d2[2] > i0 for d2 in def_blocks.get(b0, []) if d2 is not d)
+                    if later_def:
+                        out.append((body, b0, l))
+                        continue
+                    reached = reach_positions(body, uses, starts=tuple(body.succ(b0)))
+                    for b2, dl in def_blocks.items():
+                        if b2 in reached:
+                            for d2 in dl:
+                                pos2 = len(body.stmts(b2)) if d2[0] == "call" else d2[2]
+                                if reached[b2] >= pos2:
+                                    out.append((body, b0, l))
+                                    break
+    # de-duplicate
+    seen = set()
+    res = []
+    for body, b, l in out:
+        k = (body.id, l)
+        if k not in seen:
+            seen.add(k)
+            res.append((body, b, l))
+    return res
